@@ -365,6 +365,102 @@ pub fn c12(thorough: bool, replay: Option<String>) -> i32 {
     rep.traces += st.counters.get("traces").copied().unwrap_or(0);
     st.max_samples = 3;
     rep.add_sub("raw-clvm", &format!("every tree with 1..{} leaves over the 16-atom core alphabet x 3 environments, source form and hex form", leaves), n, true, capped, st);
+    // compiled generated programs (long traces: function calls, recursion), with their symbol tables; plain and hierarchical view
+    {
+        use crate::gen::*;
+        use crate::progmc::{dialect_of, entry_option_sets};
+        let mut cases: Vec<(Case, &'static str)> = vec![];
+        let sigs: Vec<&'static str> = if thorough { SIGILS.to_vec() } else { vec![SIGILS[0], SIGILS[5]] };
+        for s in sigs {
+            for c in scope_chains(if thorough { 2 } else { 1 }) {
+                if c.len() == 2 && c[0].1 != c[1].1 {
+                    continue;
+                }
+                cases.push((scope_case(&c, NamePolicy::Fresh, Some(s)), s));
+            }
+            for c in calls_cases(Some(s), 2) {
+                if c.tags[0].starts_with("calls/recursion") || c.tags[0].starts_with("calls/mutual") || c.tags[0].starts_with("calls/chain") {
+                    cases.push((c, s));
+                }
+            }
+        }
+        let n = cases.len() as u64;
+        let (mut st, capped) = par_range(n, 2, cap, || (0u64, 0u64), |c, st, i| {
+            let before = *c;
+            let (case, sigil) = &cases[i as usize];
+            let text = case.prog.text();
+            let o = entry_option_sets(sigil)[0].1.clone();
+            if let Ok(comp) = modern_compile(&text, dialect_of(sigil), &o) {
+                for a in case.args.iter().take(2) {
+                    check_program(st, &comp.code, a, "compiled", c);
+                    // hierarchical view with the program's symbols
+                    st.eval();
+                    let want = consensus(&comp.code, a);
+                    let (code, syms, args) = (comp.code.clone(), comp.symbols.clone(), a.clone());
+                    let r = catch(std::panic::AssertUnwindSafe(move || {
+                        let runner: Rc<dyn TRunProgram> = Rc::new(DefaultProgramRunner::new());
+                        let tree = chialisp::classic::clvm_tools::cmds::cldb_hierarchy(chialisp::classic::clvm_tools::cmds::CldbHierarchyArgs {
+                            runner,
+                            prim_map: prims::prim_map(),
+                            input_file_name: None,
+                            lines: Rc::new(vec![]),
+                            symbol_table: Rc::new(syms),
+                            prog: to_sexp(&code, Spell::Convert),
+                            args: to_sexp(&args, Spell::Convert),
+                            flags: 0,
+                        });
+                        fn finals(y: &chialisp::classic::clvm_tools::cmds::YamlElement, out: &mut Vec<String>) {
+                            use chialisp::classic::clvm_tools::cmds::YamlElement as Y;
+                            match y {
+                                Y::String(_) => {}
+                                Y::Array(a) => a.iter().for_each(|x| finals(x, out)),
+                                Y::Subtree(m) => {
+                                    for (k, v) in m {
+                                        if k == "Final" {
+                                            if let Y::String(s) = v {
+                                                out.push(s.clone());
+                                            }
+                                        }
+                                        finals(v, out);
+                                    }
+                                }
+                            }
+                        }
+                        let mut f = vec![];
+                        for m in &tree {
+                            finals(&chialisp::classic::clvm_tools::cmds::YamlElement::Subtree(m.clone()), &mut f);
+                        }
+                        (tree.len(), f)
+                    }));
+                    c.0 += 1;
+                    match (r, &want) {
+                        (Err(p), _) => st.violation("compiled/hierarchy-panic", format!("hierarchical view panics on {}: {}", text, p), text.len(), json!({"kind": "c12-h", "text": text})),
+                        (Ok((_, finals)), Out::Val(v)) => {
+                            let last = finals.last().and_then(|s| parse_value(s).ok());
+                            if last.as_ref() == Some(v) {
+                                st.outcome("hierarchy-final-ok");
+                                st.nontrivial(&(&text, a, "h"));
+                            } else {
+                                st.violation("compiled/hierarchy-final-differs", format!("{} on {}: hierarchical view ends with Final {:?}, consensus value {}", text, a.short(), finals.last(), v.short()), text.len(), json!({"kind": "c12-h", "text": text, "args": a.hex()}));
+                            }
+                        }
+                        _ => st.outcome("hierarchy-no-claim"),
+                    }
+                }
+            } else {
+                st.outcome("rejected");
+            }
+            st.count("states", c.0 - before.0);
+            st.count("transitions", c.1 - before.1);
+            st.count("traces", 3);
+        });
+        rep.states += st.counters.get("states").copied().unwrap_or(0);
+        rep.transitions += st.counters.get("transitions").copied().unwrap_or(0);
+        rep.traces += st.counters.get("traces").copied().unwrap_or(0);
+        st.max_samples = 2;
+        rep.add_sub("compiled-programs", &format!("{} compiled generated programs (binder chains, recursion, call chains) with symbols x 2 valuations: plain view (source form and hex form) and hierarchical view", n), n, true, capped, st);
+    }
+
     // well-formed nested expressions: long enough traces for rows to be mis-attributed
     let es = crate::clvmmc::ExprSpace::new();
     let envs2 = vec![T::list(&[T::int(11), T::int(12), T::int(13)]), T::p(T::p(T::int(21), T::int(22)), T::p(T::nil(), T::int(24)))];
